@@ -53,7 +53,7 @@ REAL = ['asyncssh stream.py (SSHReader/SSHWriter/SSHStreamSession), '
         'process.py (SSHClientProcess/SSHServerProcess, redirection), '
         'channel, connection of both endpoints']
 STUB = ['event loop + clock', 'TCP', 'executor', 'OS randomness']
-PROBES = ['redirect_target_failed', 'server_side_redirect', 'redirect_switched', 'redirect_concat', 'read_cancelled', 'async_iteration', 'mode_reader', 'mode_run', 'mode_redirect', 'text_mode',
+PROBES = ['mode_editor', 'soft_eof_ended_a_call', 'redirect_target_failed', 'server_side_redirect', 'redirect_switched', 'redirect_concat', 'read_cancelled', 'async_iteration', 'mode_reader', 'mode_run', 'mode_redirect', 'text_mode',
           'tiny_packets', 'readuntil_multi', 'readuntil_regex',
           'incomplete_read_at_eof', 'limit_overrun', 'exit_signal',
           'exit_status', 'redirect_process', 'redirect_file',
@@ -148,6 +148,11 @@ def gen_prog(rng):
 
 
 def gen_plan(rng):
+    if rng.chance(8):
+        # input typed at a terminal, with soft EOFs (checks/c19_softeof.py)
+        from . import c19_softeof
+        return c19_softeof.gen_plan(rng)
+
     mode = rng.weighted([('reader', 60), ('run', 20), ('redirect', 20)])
     text = rng.chance(40)
     n_out = rng.choice([0, 1, 5, 40, 200, 600])
@@ -194,6 +199,10 @@ def gen_plan(rng):
 
 
 def valid_plan(plan):
+    if plan.get('mode') == 'editor':
+        from . import c19_softeof
+        return c19_softeof.valid_plan(plan)
+
     try:
         if plan['mode'] not in ('reader', 'run', 'redirect') or \
                 plan['window'] < 1 or plan['pktsize'] < 1:
@@ -574,6 +583,10 @@ async def run_program(world, name, reader, prog, ref, sep_compile):
 
 
 def run_plan(plan, sched_seed=None, sched_replay=None):
+    if plan.get('mode') == 'editor':
+        from . import c19_softeof
+        return c19_softeof.run_plan(plan, sched_seed, sched_replay)
+
     world = World(plan, sched_seed, sched_replay)
     sim = world.sim
     text = plan['text']
